@@ -58,6 +58,8 @@ def battery():
         ('error_ellipse', lambda: gs.error_ellipse(V)), ('relative_error', lambda: gs.relative_error(-33.0, 151.0, V, V * 2, V * 0.1)),
         ('precise_inst_ht', lambda: sv.precise_inst_ht(va, 0.2, 0.5)), ('first_vel_corrn', lambda: sv.first_vel_corrn(1000.0, (281.0, 79.0), 20.0, 1010.0, 50.0)),
         ('add', lambda: vars(gc.itrf2014_to_gda2020 + d2)), ('neg', lambda: vars(-gc.itrf2008_to_gda94)),
+        ('add static', lambda: vars(gc.agd84_to_gda94 + d2)), ('conform14 static', lambda: tr.conform14(*P, d1, gc.gda94_to_gda2020)),
+        ('conform14 static agd', lambda: tr.conform14(*P, d2, gc.agd66_to_gda94)),
     ]
     # ellipsoids that share the inverse flattening but not the semi-major axis, and same-labelled parameter sets: results must not
     # depend on which of them was used first
